@@ -69,7 +69,10 @@ pub fn phases(prop: &str, tier: Tier) -> Vec<Phase> {
             Phase { name: "ladder", units: 14, seeded: false },
             Phase { name: "corrupt", units: if q { 64 } else { 6_400 }, seeded: true },
         ],
-        "C13" => vec![Phase { name: "rfault", units: if q { 160 } else { 8_000 }, seeded: true }],
+        "C13" => vec![
+            Phase { name: "rfault-large", units: 8, seeded: false },
+            Phase { name: "rfault", units: if q { 160 } else { 8_000 }, seeded: true },
+        ],
         _ => vec![],
     }
 }
@@ -156,6 +159,7 @@ pub fn run_unit(prop: &str, phase: &str, unit: u64, seed: u64, _tier: Tier, ctx:
         "wfault" => crate::fam_wfault::unit(derive(seed, "C12/wfault", unit), ctx, ctl),
         "corrupt" => crate::fam_corrupt::unit(derive(seed, "C07/corrupt", unit), ctx, ctl),
         "ladder" => crate::fam_corrupt::ladder_unit(unit, ctx, ctl),
+        "rfault-large" => crate::fam_rfault::large_unit(unit, ctx, ctl),
         "rfault" => crate::fam_rfault::unit(derive(seed, "C13/rfault", unit), ctx, ctl),
         _ => {}
     }
@@ -196,7 +200,7 @@ pub fn meta(prop: &str) -> PropMeta {
         },
         "C15" => PropMeta {
             level: "exploration",
-            rule: "all call sequences up to length 4 (quick) / 5 (thorough) over the 13-letter alphabet {iterate 0/1/2/all items, read_nth_shape(0..=3), seek(0..=3), shape_count} on files of n=3 records, for 6 configurations: {ShapeReader with index, ShapeReader without index, complete Reader with rows carrying their index} x {records of pairwise different sizes, records of equal size}, enumerated completely (13 + 13^2 + 13^3 + 13^4 histories per configuration in the quick tier). distinct = distinct (configuration, history) pairs; evaluations = histories executed; logical_steps = reader calls.",
+            rule: "all call sequences up to length 4 (quick) / 5 (thorough) over the 13-letter alphabet {iterate 0/1/2/all items, read_nth_shape(0..=3), seek(0..=3), shape_count} on files of n=3 records, for 10 configurations: {ShapeReader with index, ShapeReader without index, complete Reader with rows carrying their index} x {records of pairwise different sizes, records of equal size}, plus 4 configurations (ShapeReader with index, complete Reader) on files re-laid out so that the physical order differs from the index order (reversed with filler; rotated with filler that looks like a record header), enumerated completely (13 + 13^2 + 13^3 + 13^4 histories per configuration in the quick tier). distinct = distinct (configuration, history) pairs; evaluations = histories executed; logical_steps = reader calls.",
             explanation: "Each history runs on the real reader over in-memory sources; every call's result is checked against a nondeterministic reference model whose state is the set of allowed positions of the next record: fresh / after random access = {0}, after seek(k) = {min(k,n)}, after an iteration that took items from p = {p+taken, 0}. Rows of the complete Reader must carry the index of their shape.",
             exhaustive: true,
         },
